@@ -93,6 +93,7 @@ class MasterTruth:
         self.last_not_down = {}   # server -> time last observed not down
         self.view = set()         # presence as the master has been told
         self.blacklist = []       # blackout patterns the master was shown
+        self.prio = {}            # app -> own priority as last loaded
         self.admin_down = set()   # servers an admin 'down' event put down
         #                           (and no later event / presence change
         #                           brought back)
@@ -161,6 +162,25 @@ class MasterTruth:
                         re.split('[/:]', alloc['name']))
                     return alloc.get('partition'), path, alloc
         return '_default', ('_default', '_default', key), None
+
+    def priority_of(self, aname):
+        """The instance's priority by the records the master was shown: its
+        own (0..100; -1 / absent = not set), else the matching assignment's."""
+        import fnmatch
+        if aname not in self.apps:
+            return None
+        own = self.prio.get(aname)
+        if own is not None and int(own) != -1:
+            return int(own)
+        key = aname[:aname.find('.')]
+        for alloc in self.allocations:
+            for asg in alloc.get('assignments', []):
+                pattern = asg['pattern']
+                if pattern[:pattern.find('.')] != key:
+                    continue
+                if fnmatch.fnmatchcase(aname, pattern + '[#]' + '[0-9]' * 10):
+                    return int(asg.get('priority', 0))
+        return 1
 
     def partition_of(self, aname):
         return self.app_alloc[aname][0]
@@ -465,11 +485,14 @@ class World:
             truth.apps.pop(name, None)
             truth.app_alloc.pop(name, None)
             truth.marks.pop(name, None)
+            truth.prio.pop(name, None)
             return
         if name not in truth.apps:
             if not add:
                 return
             truth.apps[name] = manifest
+        # (the priority is re-read every time the master loads the instance)
+        truth.prio[name] = manifest.get('priority')
         truth.app_alloc[name] = truth.assign(name)
 
     def _truth_server(self, name, adjust=True):
@@ -500,6 +523,7 @@ class World:
         truth.alloc_by_path = {}
         self._truth_alloc_paths()
         truth.apps = {}
+        truth.prio = {}
         truth.app_alloc = {}
         for name in zk.children(z.SCHEDULED) or []:
             self._truth_app(name)
@@ -670,6 +694,13 @@ class World:
             return orig_schedule(cell)
         ctx = cellcheck.CycleCtx(cell, self.truth)
         ctx.pre = cellcheck.snapshot_apps(cell)
+        if self.prop == 'C06':
+            # the priority is an input: read from the records, not from what
+            # the loader made of it
+            for aname, snap in ctx.pre.items():
+                prio = self.truth.priority_of(aname)
+                if prio is not None:
+                    snap.priority = prio
         ctx.pre_srv = cellcheck.snapshot_servers(cell)
         ctx.rec = cellobs.Recorder()
         ctx.t0 = self.clock.peek()
